@@ -96,7 +96,7 @@ class TDFoersterRelaxationTensor(FoersterRelaxationTensor, TimeDependent):
             for bb in range(self.dim):
                 if aa != bb:
  
-                    self.data[:,aa,bb,aa,bb] -= (ht[aa,:]+ht[bb,:])
+                    self.data[:,aa,bb,aa,bb] -= (ht[aa,:]+numpy.conj(ht[bb,:]))
 
 
         
